@@ -2155,3 +2155,26 @@ func specIsEnvStringer(x any) bool { _, ok := x.(native.EnvStringer); return ok 
 //@   props X00
 //@   trusted
 //@   modifies nothing
+
+// appendCap (C05): the capacity chosen for the grown slice holds the new
+// length - OpAppend makes a slice of that capacity and re-slices it to the new
+// length, so a smaller capacity is a host panic (makeslice: cap out of range).
+//@ func appendCap
+//@   props C05
+//@   requires 0 <= oc && oc < nl
+//@   ensures result >= nl
+//@   loop 0
+//@     invariant c >= 1024 && c >= oc
+//@     decreases nl - c
+
+// OpRecover (C12): recover() stops a panic only when it is called directly by
+// a deferred function - the frames between the top of the call stack and the
+// panicked frame that the instruction marks as recovered are all frames of
+// pending deferred calls; at the first frame of another kind the search ends.
+// (The recovered flags of the chain of panics that Run reports rest on this.)
+//@ clause (*VM).run/case OpRecover
+//@   props X00 C12
+//@   opt stable VM
+//@   panics allowed
+//@   loop 0
+//@     invariant[C12] forall(i+1, last+1, func(j int) bool { return vm.calls[j].status == deferred })
